@@ -164,7 +164,8 @@ def ref_read(by: bytes):
     return passes
 
 
-NAMES = ['COND', 'SN  ', 'SP  ', 'GR  ', 'CAL ', 'TEN ', 'SPD ', 'ACQ ', 'AC  ', 'RT  ', 'DEPT', 'TIME', 'RHOB', 'NPHI', 'A   ']
+# some names differ only in where their blanks are, or in case: they are different channels
+NAMES = ['COND', 'SN  ', 'SP  ', 'GR  ', 'CAL ', 'TEN ', 'SPD ', 'ACQ ', 'AC  ', 'RT  ', 'DEPT', 'TIME', 'RHOB', 'NPHI', 'A   ', '  GR', ' SP ', 'gr  ']
 
 
 def gen_pass(rng, max_frames=60, names_pool=None, long=False):
